@@ -11,23 +11,21 @@ Definition eqpts_of_w (w : rows) : list eqpt := map mk_eqpt (w_eqpts w).
 (* the node list after the ILA -> ROADM correction *)
 Definition final_nodes (w : rows) : list node := map (correct_type (links_of_w w)) (nodes_of w).
 
-(* Hypotheses beyond the sanity rules: well-formed site names (none of ' ', ')', '|'), no link from a site to
-   itself, FUSED sites of degree 2 without Eqpt rows.  The last three are regions where convert.py does not
-   reject and does not convert properly either (see the *_refuted lemmas below). *)
+(* Hypotheses beyond the sanity rules: well-formed site names (none of ' ', ')', '|') and no Eqpt row on a FUSED
+   site.  The latter is a region where convert.py does not reject and does not convert properly either (open
+   finding, see eqpt_on_fused_refuted below). *)
 Record wellformed (w : rows) : Prop := mkWf {
   wf_names : forall c, In c (cities (nodes_of w)) -> name_ok c = true;
-  wf_loops : no_loops (links_of_w w);
-  wf_fused : forall n, In n (nodes_of w) -> n_type n = TFused ->
-               length (links_of (n_city n) (links_of_w w)) = 2%nat /\ eqpts_of (n_city n) (eqpts_of_w w) = []
+  wf_fused : forall n, In n (nodes_of w) -> n_type n = TFused -> eqpts_of (n_city n) (eqpts_of_w w) = []
 }.
 
 Lemma convert_good : forall w n, convert w = Ok n -> wellformed w ->
   good (final_nodes w) (links_of_w w) (eqpts_of_w w) /\
   exists ef wf ee we, built (final_nodes w) (links_of_w w) (eqpts_of_w w) (w_roadms w) n ef wf ee we.
 Proof.
-  intros w n H [W1 W2 W3]. destruct (convert_ok_sane w n H) as [S B].
-  pose proof (sane_good _ _ _ S W2 W1 W3) as G. split; [exact G|].
-  apply build_inv; [apply (g_cities _ _ _ G) | apply (g_links _ _ _ G) | exact W2 | exact B].
+  intros w n H [W1 W3]. destruct (convert_ok_sane w n H) as [S B].
+  pose proof (sane_good _ _ _ S W1 W3) as G. split; [exact G|].
+  apply build_inv; [apply (g_cities _ _ _ G) | apply (g_links _ _ _ G) | apply (g_loops _ _ _ G) | exact B].
 Qed.
 
 Lemma built_conns : forall ns ls es rs n ef wf ee we, built ns ls es rs n ef wf ee we -> connections n = conns ns ls es.
@@ -121,6 +119,8 @@ Qed.
 Inductive violation (ns : list node) (ls : list link) (es : list eqpt) : Prop :=
 | V_duplicate_city : ~ NoDup (cities ns) -> violation ns ls es
 | V_link_unknown_node (l : link) : In l ls -> ~ In (l_from l) (cities ns) \/ ~ In (l_to l) (cities ns) -> violation ns ls es
+| V_self_loop_link (l : link) : In l ls -> l_from l = l_to l -> violation ns ls es
+| V_fused_degree (n : node) : In n ns -> n_type n = TFused -> length (links_of (n_city n) ls) <> 2%nat -> violation ns ls es
 | V_duplicate_link (l1 l2 l3 : list link) (a b : link) :
     ls = l1 ++ a :: l2 ++ b :: l3 -> link_eqv a b = true -> violation ns ls es    (* same or reversed end points *)
 | V_unreferenced_node (n : node) : In n ns -> (forall l, In l ls -> ~ incident (n_city n) l) -> violation ns ls es
@@ -160,9 +160,11 @@ Qed.
 
 Lemma violation_not_sane : forall ns ls es, violation ns ls es -> ~ sane ns ls es.
 Proof.
-  intros ns ls es V [S1 S2 S3 S4 S5 S6 S7 S8]. destruct V as [H|l I H|l1 l2 l3 a b E H|n I H|e I H|e I H Hn Ha Hl|e1 e2 e3 a b E Hf Ht|n a b I T N Ia Ib Fa Fb].
+  intros ns ls es V [S0 S1 S2 S3 S4 S5 S6 S7 S8 S9]. destruct V as [H|l I H|l I H|n I T H|l1 l2 l3 a b E H|n I H|e I H|e I H Hn Ha Hl|e1 e2 e3 a b E Hf Ht|n a b I T N Ia Ib Fa Fb].
   - contradiction.
   - destruct (S2 l I). tauto.
+  - exact (S0 l I H).
+  - exact (H (S9 n I T)).
   - apply dup_links_spec in S3. subst ls. rewrite (dup_links_app _ _ _ _ _ H) in S3. discriminate.
   - destruct (S4 n I) as [l [Il Hi]]. exact (H l Il Hi).
   - destruct (S5 e I). tauto.
@@ -177,7 +179,7 @@ Proof.
     unfold eqpts_of in Hle. cbv beta in H2. rewrite Fa, Fb, seqb_refl in H2. specialize (H2 eq_refl eq_refl). lia.
 Qed.
 
-(* duplicate / dangling / inconsistent rows: an error naming one of the eight rules, never a network *)
+(* duplicate / dangling / inconsistent rows: an error naming one of the ten rules, never a network *)
 Theorem sanity_rejects : forall w, violation (nodes_of w) (links_of_w w) (eqpts_of_w w) ->
   (exists r, In r rules /\ convert w = Err (topo_err r)) /\ forall n, convert w <> Ok n.
 Proof.
@@ -188,38 +190,12 @@ Qed.
 Theorem accepted_is_sane : forall w n, convert w = Ok n -> sane (nodes_of w) (links_of_w w) (eqpts_of_w w).
 Proof. intros w n H. exact (proj1 (convert_ok_sane w n H)). Qed.
 
-(* ------------------------------------------------------------------ where convert.py is wrong: witnesses *)
+(* ------------------------------------------------------------------ where convert.py is wrong: witness *)
 Definition blank_side : side_row := mkSideRow None None None None None None None.
 Definition lk (a z : string) : link_row := mkLinkRow a z (mkSideRow (Some 50%Q) None None None None None None) blank_side.
 Definition nd (c t : string) : node_row := mkNodeRow c None None None (Some t) None None.
 Definition blank_amp : amp_row := mkAmpRow None None None None None None.
 
-(* a link from a site to itself passes every rule and yields two elements with the same name *)
-Definition w_self_loop : rows := mkRows [nd "A" "ROADM"; nd "C" "ROADM"] [lk "A" "C"; lk "A" "A"] [] [].
-Lemma self_loop_refuted : exists n, convert w_self_loop = Ok n /\ ~ NoDup (names n).
-Proof.
-  eexists. split; [vm_compute; reflexivity|]. apply dupb_true. vm_compute. reflexivity.
-Qed.
-(* a FUSED site of degree 1 passes every rule and raises IndexError *)
-Definition w_fused_1 : rows := mkRows [nd "A" "ROADM"; nd "B" "ROADM"; nd "F" "FUSED"] [lk "A" "B"; lk "A" "F"] [] [].
-Lemma fused_degree_1_refuted :
-  sane (nodes_of w_fused_1) (links_of_w w_fused_1) (eqpts_of_w w_fused_1) /\
-  convert w_fused_1 = Err "IndexError:site_degree"%string.
-Proof.
-  split; [|vm_compute; reflexivity].
-  destruct (checks_cases (nodes_of w_fused_1) (links_of_w w_fused_1) (eqpts_of_w w_fused_1)) as [[r [_ Hr]]|[S _]]; [|exact S].
-  vm_compute in Hr. discriminate.
-Qed.
-(* a FUSED site of degree 3 is converted; the fibres of its third link have no connection at that site *)
-Definition w_fused_3 : rows :=
-  mkRows [nd "A" "ROADM"; nd "B" "ROADM"; nd "C" "ROADM"; nd "F" "FUSED"] [lk "A" "F"; lk "B" "F"; lk "C" "F"] [] [].
-Lemma fused_degree_3_refuted : exists n, convert w_fused_3 = Ok n /\
-  In (UFiber "C" "F" "") (uids n) /\ forall v, ~ In (UFiber "C" "F" "", v) (connections n).
-Proof.
-  eexists. split; [vm_compute; reflexivity|]. split.
-  - vm_compute. tauto.
-  - intros v H. vm_compute in H. repeat (destruct H as [H|H]; [discriminate|]). exact H.
-Qed.
 (* an Eqpt row on a FUSED site is converted into two elements that nothing is connected to *)
 Definition w_eqpt_on_fused : rows :=
   mkRows [nd "A" "ROADM"; nd "B" "ROADM"; nd "F" "FUSED"] [lk "A" "F"; lk "F" "B"]
